@@ -20,7 +20,9 @@ extern ssize_t mpt_qpre(MPT_STRUCT(queue) *queue, size_t len)
 {
 	size_t low, high, total;
 	
-	mpt_queue_empty(queue, &low, &high);
+	if (!mpt_queue_empty(queue, &low, &high)) {
+		return MPT_ERROR(MissingBuffer);
+	}
 	total = low + high;
 	
 	/* not enough remaining space */
